@@ -228,11 +228,13 @@ impl ByteCompiler<'_> {
                 self.patch_jump(return_method_undefined);
                 self.patch_jump(resume_return);
 
+                let return_value = self.return_value_register();
                 if self.is_async() {
                     self.bytecode.emit_await(dst.variable());
                     self.bytecode.emit_pop();
+                    self.bytecode.emit_pop_into_register(return_value);
                 } else {
-                    self.push_from_register(dst);
+                    self.bytecode.emit_move(return_value, dst.variable());
                 }
                 self.close_active_iterators();
 
